@@ -19,7 +19,7 @@ Procedure:
 2. Run the existing suite SERIALLY in your worktree (takes ~40 s; do not use -n): 
    cd {wt} && PYTHONPATH={wt} /venv/bin/python -m pytest -q -p no:cacheprovider --timeout=900 --continue-on-collection-errors 2>&1 | tail -15
    On the unmodified tree the result is 243 passed, 11 failed (the 11 failures are pre-existing: testMapOn, testMapOnRaster, test_read_wfs, test_read_asc, test_read_ign_mnt, test_read_metadata_mnt, testWriteTwoTrackToManyGpx0AF/1AF/2AF, testCircleTrigo, testCircles). With your change it must be the same 243 passed / same 11 failed. If a test breaks, choose another change.
-3. Write a demonstration {wt}/demo_{pid.lower()}.py: a small standalone script (run as `PYTHONPATH=<tree> /venv/bin/python demo_{pid.lower()}.py`) that exits 0 when the property holds on the scenario it exercises and exits 1 (printing what went wrong) when it does not. It must exit 1 with your change and exit 0 without it (check the latter with `git stash` / `git stash pop`, or `git diff > /tmp/p.diff; git checkout -- tracklib; ...; git apply /tmp/p.diff`).
+3. Write a demonstration {wt}/demo_{pid.lower()}.py: a small standalone script (run as `PYTHONPATH=<tree> /venv/bin/python demo_{pid.lower()}.py`) that exits 0 when the property holds on the scenario it exercises and exits 1 (printing what went wrong) when it does not. It must exit 1 with your change and exit 0 without it (check the latter with `git diff > {wt}.diff; git checkout -- tracklib; <run demo>; git apply {wt}.diff`; NEVER use `git stash`: the stash is shared between all worktrees of the repository and other people are working in sibling worktrees right now). Note that the script's own directory comes first on sys.path, so keep the demo inside your worktree when you run it.
 4. Leave the change applied and uncommitted in the worktree (so that `git -C {wt} diff` shows exactly your patch; the demo file stays untracked).
 
 Final answer: the file(s) and lines changed, why it breaks the property, exactly what is needed for it to manifest, the test-suite result line with the change, and the demo's output with and without the change.""")
